@@ -22,8 +22,11 @@ EXPLANATION = ("Proved: the bag partition and the self-comparison law for any ma
                "self-loop data, degree and edge consistency against older pairs; and completeness of the search: "
                "on isomorphic well-formed (augmented) graphs it always returns a mapping whose domain is the node "
                "set of the first graph, whatever the candidate order and pruning (C06_vf2_complete), hence "
-               "reflexivity. Full soundness w.r.t. the original (un-augmented) graphs is checked against an "
-               "exhaustive bijection oracle, not proved.")
+               "reflexivity. Soundness at the level of the isographs themselves (C06_vf2_sound): the closure under inverse "
+               "edges is characterised by look-ups, its data decode uniquely, and so a returned mapping is one-to-one, "
+               "label preserving and, for any two of its pairs, the directed edge between them carries the same data in "
+               "both isographs or is absent in both - under two decidable hypotheses (well-formed isographs, edge data "
+               "without the closure's own marks) that are evaluated on every case of the run.")
 ASSUMPTIONS = [
     "predicate.normalize (quotes, _rel suffix, letter case) is applied by the harness before a structure is "
     "given to the model; other spellings of the same predicates are generated and must not change the verdict",
@@ -33,13 +36,15 @@ ASSUMPTIONS = [
 TRUSTED = []
 LEVEL_TEXT = ("Proof (Coq, no axioms) of the bag laws (unique-test + shared = |test|, shared + unique-gold = "
               "|gold| for any matcher; a bag against itself under a reflexive matcher is entirely shared) and of "
-              "partial soundness and of completeness of the modelled VF2 search (see explanation). The verdict of is_isomorphic and the "
+              "soundness and of completeness of the modelled VF2 search (see explanation). The verdict of is_isomorphic and the "
               "counts of compare_bags are tied to delphin by kernel-checked correspondence; exactness (sound and "
               "complete) is decided on every generated pair by an independent exhaustive bijection oracle.")
-LEVEL_NOTE = ("Partial: soundness w.r.t. the un-augmented graphs is not a theorem (completeness of the search is). "
+LEVEL_NOTE = ("Partial: soundness and completeness are theorems about the search on isographs; the size pre-checks of "
+              "is_isomorphic and the reading of an isograph isomorphism as an MRS isomorphism are tied by correspondence "
+              "and the exhaustive bijection oracle. "
               "Three genuine defects (F6 self loops, F22 two-way links, F23 properties skipped on EPs with a "
               "constant) were repaired by fix: commits; the model follows the repaired code.")
-TECHNIQUE = "Coq proof (bag laws, VF2 completeness and partial soundness) + kernel-checked correspondence + exhaustive bijection oracle"
+TECHNIQUE = "Coq proof (bag laws, VF2 soundness and completeness on isographs) + kernel-checked correspondence + exhaustive bijection oracle"
 DESIGN_REF = "DESIGN.md section 6, C06"
 
 
